@@ -212,7 +212,8 @@ NAMES = ['NeoHooke(mu,bulk)', 'NeoHooke(mu)', 'Volumetric(bulk)', 'NeoHookeCompr
          'tt.yeoh', 'tt.third_order_deformation', 'tt.blatz_ko', 'tt.van_der_waals', 'tt.van_der_waals[beta=0]', 'tt.storakers',
          'tt.extended_tube', 'tt.extended_tube[delta=0]', 'tt.miehe_goektepe_lulei', 'tt.ogden', 'tt.arruda_boyce', 'tt.alexander',
          'tt.anssari_benam_bucchi', 'tt.lopez_pamies', 'tt.saint_venant_kirchhoff', 'tt.saint_venant_kirchhoff[k=0]',
-         'tt.saint_venant_kirchhoff[k=1]', 'tt.saint_venant_kirchhoff_orthotropic', 'jax.neo_hooke', 'jax.mooney_rivlin', 'jax.yeoh',
+         'tt.saint_venant_kirchhoff[k=1]', 'tt.saint_venant_kirchhoff[k=real]', 'tt.saint_venant_kirchhoff_orthotropic',
+         'tt.saint_venant_kirchhoff_orthotropic[k!=2]', 'jax.neo_hooke', 'jax.mooney_rivlin', 'jax.yeoh',
          'jax.third_order_deformation', 'jax.blatz_ko', 'jax.van_der_waals', 'jax.van_der_waals[beta=0]', 'jax.storakers', 'jax.extended_tube',
          'jax.extended_tube[delta=0]', 'jax.miehe_goektepe_lulei', 'tt.finite_strain_viscoelastic', 'tt.ogden_roxburgh(neo_hooke)',
          'tt.lagrange.morph', 'tt.lagrange.morph_representative_directions', 'tt.hyperelastic.morph_representative_directions',
